@@ -243,6 +243,7 @@ class Tap:
         self.tl = threading.local()
         self.dropped = set()
         self.real_timeouts = False  # True: response_queue.get really waits T3 (only for the baton schedule that needs the wall clock)
+        self.auto_expire = False  # True: nobody fires T3 (baton runs): it runs out by itself after the stall budget `deadline()`
         self.expired = {}  # caller index -> Event: the harness fires that caller's T3
 
     # ---- helpers
@@ -291,13 +292,16 @@ class Tap:
                         # logical T3: expires when the harness says so (`expire_waiting`), not when the machine is slow
                         with tap.lock:
                             ev = tap.expired.setdefault(self.owner, threading.Event())
-                        hard = time.monotonic() + 300
+                        hard = time.monotonic() + (deadline() if tap.auto_expire else 3 * WAIT_FIRST)
                         while True:
                             try:
                                 m = super().get(True, 0.0005)
                                 break
                             except queue.Empty:
-                                if ev.is_set() or time.monotonic() > hard:
+                                if ev.is_set():
+                                    raise
+                                if time.monotonic() > hard:
+                                    _stalled()  # a reply that never reaches this caller: T3 "runs out" after the stall budget
                                     raise
                 except queue.Empty:
                     with tap.lock:
@@ -799,12 +803,14 @@ def part_request_schedules(cx: Ctx):
             rig.feed(data_msg(h.system, h.stream, h.function + 1))
 
     rig.c.hook = reply_now
+    rig.tap.auto_expire = True  # nobody fires T3 inside a baton run: a reply that never arrives costs one stall budget
     baton = sched.Baton({sched.code_of(f): linenos}, stall=0.02, deadline=90.0)
     baton.describe(f)
 
     pending = []
 
     def one(k, sch, exhaustive):
+        n_viol = len(res.violations)
         rig.tap.reset_log()
         base_callers = rig.tap.n_callers
         with rig.c.lock:
@@ -849,7 +855,7 @@ def part_request_schedules(cx: Ctx):
                 ren.append(t)
         want = sorted(f"{ids[i]}/{show_result(out.results.get(i))}" for i in range(k))
         pending.append((case, f"txn run {aflag(cx.atomic)} {int(cx.patched)} {c0} {k} " + ",".join(["U"] + ren), want))
-        return True
+        return len(res.violations) == n_viol  # a failing schedule is reported once; the remaining ones would only repeat it (and its stall)
 
     total = 0
     t0 = time.time()
@@ -863,7 +869,8 @@ def part_request_schedules(cx: Ctx):
     if total == 252:
         res.exhaustive_parts.append("send_and_waitfor_response: all 252 interleavings of the 5 step lines of 2 x 1 calls, immediate replies")
     for _ in range(400 if cx.big else 12):
-        one(3, rng.shuffle([0] * 5 + [1] * 5 + [2] * 5), False)
+        if total < 252 or not one(3, rng.shuffle([0] * 5 + [1] * 5 + [2] * 5), False):
+            break
     if cx.drv.available and pending:
         outs = cx.drv.run([ln for (_c, ln, _w) in pending])
         for (case, line, want), ans in zip(pending, outs):
@@ -1899,20 +1906,36 @@ def main():
     def want(part):
         return only is None or part in only
 
+    budget = 2400 if cx.big else 600
+    current = {"part": "start"}
+
+    def watchdog():
+        time.sleep(budget)
+        res.violate("c06-harness-stalled", f"the check did not finish within {budget} s: the implementation stalls (last part: {current['part']}; "
+                    f"waits that ran into their deadline: {STALL_LOG[-6:]})", {"part": current["part"], "stalls": STALL_LOG[-12:]})
+        res.notes.append("watchdog: harness budget used up")
+        res.dump(a.out)
+        os._exit(0)
+
+    threading.Thread(target=watchdog, daemon=True).start()
     try:
         _t = time.time()
+        current["part"] = "part_static_tie"
         part_static_tie(cx)
         res.bump("part_wall_s", "part_static_tie", round(time.time() - _t, 1))
         if want("counter"):
             _t = time.time()
+            current["part"] = "part_counter"
             part_counter(cx)
             res.bump("part_wall_s", "part_counter", round(time.time() - _t, 1))
         if want("request-schedule"):
             _t = time.time()
+            current["part"] = "part_request_schedules"
             part_request_schedules(cx)
             res.bump("part_wall_s", "part_request_schedules", round(time.time() - _t, 1))
         if want("scripted"):
             _t = time.time()
+            current["part"] = "part_scripted"
             part_scripted(cx)
             res.bump("part_wall_s", "part_scripted", round(time.time() - _t, 1))
         if replay_reconnects:
@@ -1920,30 +1943,37 @@ def main():
                 reconnect_scenario(cx, cycles, cuts)
         elif want("reconnect") or want("unsolicited"):
             _t = time.time()
+            current["part"] = "part_unsolicited_and_reconnect"
             part_unsolicited_and_reconnect(cx)
             res.bump("part_wall_s", "part_unsolicited_and_reconnect", round(time.time() - _t, 1))
         if want("primary"):
             _t = time.time()
+            current["part"] = "part_primary_collision"
             part_primary_collision(cx)
             res.bump("part_wall_s", "part_primary_collision", round(time.time() - _t, 1))
         if want("link-loss"):
             _t = time.time()
+            current["part"] = "part_link_loss_in_progress"
             part_link_loss_in_progress(cx)
             res.bump("part_wall_s", "part_link_loss_in_progress", round(time.time() - _t, 1))
         if want("lost-wakeup"):
             _t = time.time()
+            current["part"] = "part_lost_wakeup"
             part_lost_wakeup(cx)
             res.bump("part_wall_s", "part_lost_wakeup", round(time.time() - _t, 1))
         if want("bad-frame"):
             _t = time.time()
+            current["part"] = "part_bad_frame_in_the_middle"
             part_bad_frame_in_the_middle(cx)
             res.bump("part_wall_s", "part_bad_frame_in_the_middle", round(time.time() - _t, 1))
         if want("reply-functions"):
             _t = time.time()
+            current["part"] = "part_reply_functions"
             part_reply_functions(cx)
             res.bump("part_wall_s", "part_reply_functions", round(time.time() - _t, 1))
         if want("isolation") or want("burst"):
             _t = time.time()
+            current["part"] = "part_isolation_and_burst"
             part_isolation_and_burst(cx)
             res.bump("part_wall_s", "part_isolation_and_burst", round(time.time() - _t, 1))
         if replay_classes:
